@@ -245,6 +245,8 @@ ViewDefs == << SelX(From1, <<It(A1, "A"), It(ArE("+", A1, B1), "S")>>, CmpE(">="
 ViewNames9 == << "V1", "V2", "V3", "V4", "V5" >>
 ViewCols == << <<>>, <<"K", "CNT">>, <<>>, <<>>, <<>> >>
 OuterOn(f, c1, c2) == { [BaseSel(f) EXCEPT !.where = NoExpr], SelX(f, <<It(Col(c1), c1)>>, IsNullE(Col(c2), TRUE)),
+                        \* comparisons on the first (always INTEGER) output column: filters an optimizer may want to push into the definition
+                        SelX(f, <<It(Col(c1), c1), It(Col(c2), c2)>>, CmpE("=", Col(c1), L(0))), SelX(f, <<It(Col(c1), c1)>>, CmpE("<", Col(c1), L(1))),
                         [SelX(f, <<It(Col(c1), c1), It(CountStar, "N")>>, NoExpr) EXCEPT !.group = <<Col(c1)>>] }
 OutCols(i) == IF ViewCols[i] # <<>> THEN ViewCols[i] ELSE [j \in 1..Len(ViewDefs[i].sel) |-> ViewDefs[i].sel[j].as]
 F9View(i) == OuterOn(TableRef(ViewNames9[i]), OutCols(i)[1], OutCols(i)[2])
@@ -291,8 +293,9 @@ NoNullKeys == (\A i \in 1..Len(st.tabs["T1"].rows) : ~IsNull(st.tabs["T1"].rows[
 ThmRewrite == Family = "F8" => /\ \A g \in RwGroups : \A q1, q2 \in g : SameBag(q1, q2)
                                /\ (NoNullKeys => SameBag(NotInQ, NotExQ))
 \* C32: view reference = CTE reference = inlined derived table
-ThmView == Family = "F9" => \A i \in 1..3 : \A qv \in F9View(i) : \A qc \in F9Cte(i) : \A qd \in F9Der(i) :
-              (qv.star = qc.star /\ qv.sel = qc.sel /\ qv.group = qc.group /\ qc.star = qd.star /\ qc.sel = qd.sel /\ qc.group = qd.group)
+ThmView == Family = "F9" => \A i \in 1..5 : \A qv \in F9View(i) : \A qc \in F9Cte(i) : \A qd \in F9Der(i) :
+              (qv.star = qc.star /\ qv.sel = qc.sel /\ qv.group = qc.group /\ qc.star = qd.star /\ qc.sel = qd.sel /\ qc.group = qd.group
+               /\ qv.where = qc.where /\ qc.where = qd.where)
                  => (SameBag(qv, qc) /\ SameBag(qc, qd))
 \* C08: LIMIT n OFFSET m is the slice [m, m+n) of the sorted sequence: AcceptRes accepts exactly the spec's own slice
 RECURSIVE SortIdx(_,_,_)      \* stable selection sort of the index set by the ORDER BY keys
